@@ -30,13 +30,19 @@ WEIGHTS = {
     "detach": [("add", 18), ("delete", 8), ("flush", 10), ("commit", 8), ("rollback", 6), ("expunge", 10),
                ("expunge_all", 4), ("close", 5), ("mt", 8), ("mtd", 6), ("merge", 8), ("get", 5), ("new", 3),
                ("setpk", 3)],
+    # loading traffic for C34: queries, get, refresh, merge, pk changes, expunge/re-add
+    "identity": [("add", 14), ("delete", 5), ("flush", 8), ("commit", 8), ("rollback", 5), ("expunge", 7),
+                 ("merge", 8), ("get", 12), ("query", 10), ("refresh", 5), ("setpk", 8), ("expire", 5), ("mt", 2),
+                 ("mtd", 3), ("nbegin", 3), ("nrollback", 3), ("ncommit", 2), ("close", 2), ("new", 4), ("expunge_all", 1)],
 }
 
 
 def pick(rng, profile, npool):
     names, ws = zip(*WEIGHTS[profile])
     k = rng.choices(names, ws)[0]
-    if k in ("add", "delete", "expunge", "expire", "mtd", "merge"):
+    if k == "query":
+        return (k, int(rng.random() < 0.3), int(rng.random() < 0.3))
+    if k in ("add", "delete", "expunge", "expire", "mtd", "merge", "refresh"):
         return (k, rng.randrange(npool))
     if k in ("mt", "setpk"):
         return (k, rng.randrange(npool), rng.choice(PKS))
@@ -73,7 +79,7 @@ def compact(case):
 
     eoc, ops, recs = case
     strs = [L.fmt_record(r) if r is not None else "bad-oid" for r in recs]
-    return eoc, ops, strs, O.check_case(eoc, ops, recs)
+    return eoc, ops, strs, {"c35": O.check_case(eoc, ops, recs), "c34": O.check_case_c34(eoc, ops, recs)}
 
 
 # exhaustive small scope: two instances a (pk 1) and b (pk 1 or 2)
@@ -82,12 +88,14 @@ SMALL_ALPHABET = [
     ("nbegin",), ("nrollback",), ("ncommit",), ("close",), ("get", 1), ("merge", 0), ("mt", 0, 1), ("mtd", 0),
     ("setpk", 0, 2), ("expire", 0),
 ]
+# for C34: loading operations added
+IDENTITY_ALPHABET = SMALL_ALPHABET + [("query", 0, 0), ("query", 1, 0), ("refresh", 0), ("get", 2), ("merge", 1), ("setpk", 1, 1)]
 
 
-def small_scope(maxlen, pkb):
+def small_scope(maxlen, pkb, alphabet=None):
     pre = [("new", 1), ("new", pkb)]
     for n in range(1, maxlen + 1):
-        for seq in itertools.product(SMALL_ALPHABET, repeat=n):
+        for seq in itertools.product(alphabet or SMALL_ALPHABET, repeat=n):
             yield pre + list(seq)
 
 
